@@ -129,7 +129,7 @@ Qed.
 Lemma wf_delete_by_index v i r : wf_shape v = true -> delete_by_index_t v i = Ok r -> wf_shape r = true.
 Proof.
   intros Hv H. destruct v; cbn [delete_by_index_t] in H; try discriminate.
-  destruct (_ && _)%bool; inversion H; subst; [|exact Hv]. cbn [wf_shape] in *. apply forallb_remove_nth. exact Hv.
+  destruct (DBI_T_KEEP _ _); inversion H; subst; [|exact Hv]. cbn [wf_shape] in *. apply forallb_remove_nth. exact Hv.
 Qed.
 Lemma wf_array_insert v pos x : wf_shape v = true -> wf_shape x = true -> wf_shape (array_insert_t v pos x) = true.
 Proof.
